@@ -483,16 +483,16 @@ fn gen_scan(rng: &mut Rng, long: bool) -> String {
 fn gen_raw(rng: &mut Rng) -> String {
     let scanner = rng.chance(1, 2);
     let ts = rng.below(126) as u8;
-    let n = 1 + rng.below(12);
+    let n = 1 + rng.below(30);
     let mut ops = vec![];
     for _ in 0..n {
-        let addr = match rng.below(8) {
-            0 => 127,
-            1 => 128,
-            2 => 255,
-            3 => 126,
-            4 => 128 + rng.below(128) as u8,
-            _ => rng.below(128) as u8,
+        let addr = match rng.below(40) {
+            0 => 128,
+            1 => 255,
+            2 => 128 + rng.below(128) as u8,
+            3 | 4 => 127,
+            5 | 6 => 126,
+            _ => rng.below(126) as u8,
         };
         match rng.below(3) {
             0 => ops.push("t".to_string()),
@@ -510,13 +510,14 @@ fn gen_raw(rng: &mut Rng) -> String {
 pub fn gen(seed: u64, thorough: bool, out: &mut dyn FnMut(String)) {
     let mut rng = Rng::new(seed ^ 0x5ca9);
     let (n_long, n_short, n_raw) = if thorough { (4000, 12000, 20000) } else { (400, 1200, 2000) };
-    for _ in 0..n_long {
-        out(gen_scan(&mut rng, true));
+    // short histories first: a failing input reported first is a small one
+    for _ in 0..n_raw {
+        out(gen_raw(&mut rng));
     }
     for _ in 0..n_short {
         out(gen_scan(&mut rng, false));
     }
-    for _ in 0..n_raw {
-        out(gen_raw(&mut rng));
+    for _ in 0..n_long {
+        out(gen_scan(&mut rng, true));
     }
 }
